@@ -156,6 +156,78 @@ def splitAtEndproc : List CfiDir → List CfiDir × List CfiDir
   | d :: ds => if d.name == ".cfi_endproc" then ([], d :: ds)
     else let (k, m) := splitAtEndproc ds; (d :: k, m)
 
+/-- symbols: `at_end` references follow the tail block -/
+def IR.splitSyms (ir : IR) (bId nb : Nat) : IR :=
+  { ir with syms := ir.syms.map (fun s =>
+      if s.ref == .block bId && s.atEnd then { s with ref := .block nb } else s) }
+
+/-- out-edges of a block split in the middle: they all leave from the tail -/
+def IR.splitEdgesMid (ir : IR) (bId nb : Nat) : IR :=
+  (ir.outEdges bId).foldl (fun ir e => ir.updateEdge e (updSrc e (.block nb))) ir
+
+/-- out-edges of a block split at its very end: only fallthroughs move to the (empty)
+tail; the return edges of called functions follow the new fallthrough -/
+def IR.splitEdgesEnd (ir : IR) (bId nb : Nat) : IR :=
+  let ft := ir.fallTargets bId
+  (ir.outEdges bId).foldl (fun ir e =>
+    if Edge.isCall e then ir.moveReturnEdges e ft nb
+    else if Edge.isFall e then ir.updateEdge e (updSrc e (.block nb))
+    else ir) ir
+
+def IR.addFall (ir : IR) (src dst : Nat) : IR :=
+  { ir with cfg := cfgAdd ir.cfg { src := .block src, dst := .block dst, label := fallLabel } }
+
+def IR.inheritFunction (ir : IR) (bId nb : Nat) : IR :=
+  match alookup bId ir.fbb with
+  | some f => ir.addFunctionBlock nb f
+  | none => ir
+
+/-- CFG and function membership of a split code block; returns whether a connecting
+fallthrough edge was added -/
+def IR.splitCode (ir : IR) (bId nb : Nat) (endSplit : Bool) : IR × Bool :=
+  if !endSplit then (((ir.splitEdgesMid bId nb).addFall bId nb).inheritFunction bId nb, true)
+  else
+    let addFall := !(ir.fallTargets bId).isEmpty
+    let i1 := ir.splitEdgesEnd bId nb
+    let i2 := if addFall then i1.addFall bId nb else i1
+    (i2.inheritFunction bId nb, addFall)
+
+/-- block-keyed offset tables: entries at `k ≥ offset` move to the new block -/
+def splitOmaps (omaps : List (String × List (Elem × Nat × String))) (bId nb offset : Nat) :
+    List (String × List (Elem × Nat × String)) :=
+  omaps.map (fun (name, entries) =>
+    (name, entries.map (fun (el, k, v) =>
+      if el == Elem.block bId && decide (k ≥ offset) then (Elem.block nb, k - offset, v)
+      else (el, k, v))))
+
+/-- CFI directives of a split block (the `.cfi_endproc` rule at the split point) -/
+def splitCfi (cfi0 : List (Nat × Nat × List CfiDir)) (bId nb offset : Nat) : List (Nat × Nat × List CfiDir) :=
+  let mine := cfiGet cfi0 bId
+  if mine.isEmpty then cfi0
+  else
+    let rest := cfiDelBlock cfi0 bId
+    let low := mine.filter (fun (k, _) => k < offset)
+    let high := mine.filter (fun (k, _) => k > offset)
+    let atOff := (alookup offset mine).getD []
+    let (keep, move) := splitAtEndproc atOff
+    let lowE := low.map (fun (k, v) => (bId, k, v))
+    let keepE := if keep.isEmpty then [] else [(bId, offset, keep)]
+    -- `cfi_data[new_block][0] = move` overwrites; there is no key 0 among `high - offset`
+    let moveE := if move.isEmpty then [] else [(nb, 0, move)]
+    let highE := high.map (fun (k, v) => (nb, k - offset, v))
+    rest ++ lowE ++ keepE ++ highE ++ moveE
+
+/-- the two blocks after the split -/
+def IR.splitBlocks (ir : IR) (blk : Block) (nb offset : Nat) : IR :=
+  { (ir.setBlock { blk with size := offset }) with
+    blocks := (ir.setBlock { blk with size := offset }).blocks ++
+      [{ id := nb, isCode := blk.isCode, bi := blk.bi, off := blk.off + offset, size := blk.size - offset }],
+    next := nb + 1 }
+
+def IR.splitTables (ir : IR) (bId nb offset : Nat) : IR :=
+  { ir with aux := { ir.aux with omaps := splitOmaps ir.aux.omaps bId nb offset,
+                                 cfi := splitCfi ir.aux.cfi bId nb offset } }
+
 /-- `split_block(cache, block, offset)`: returns the new state, the id of the new
 block and whether a fallthrough edge was added -/
 def IR.splitBlock (ir : IR) (bId offset : Nat) : Except Err (IR × Nat × Bool) :=
@@ -167,59 +239,10 @@ def IR.splitBlock (ir : IR) (bId offset : Nat) : Except Err (IR × Nat × Bool) 
       match ir.sectionOf blk with
       | none => .error (.assertion "target block must be in a module")
       | some sect =>
-        let endSplit := offset == blk.size
         let nb := ir.next
-        let newBlk : Block := { id := nb, isCode := blk.isCode, bi := blk.bi, off := blk.off + offset,
-                                size := blk.size - offset }
-        let ir1 : IR := { (ir.setBlock { blk with size := offset }) with
-                          blocks := (ir.setBlock { blk with size := offset }).blocks ++ [newBlk],
-                          next := nb + 1 }
-        -- at_end symbols follow the tail
-        let ir2 : IR := { ir1 with syms := ir1.syms.map (fun s =>
-          if s.ref == .block bId && s.atEnd then { s with ref := .block nb } else s) }
-        let (ir3, added) : IR × Bool :=
-          if blk.isCode then
-            let (ir', addFall) : IR × Bool :=
-              if !endSplit then
-                ((ir2.outEdges bId).foldl (fun ir e => ir.updateEdge e (updSrc e (.block nb))) ir2, true)
-              else
-                let ft := ir2.fallTargets bId
-                let ir' := (ir2.outEdges bId).foldl (fun ir e =>
-                  if Edge.isCall e then ir.moveReturnEdges e ft nb
-                  else if Edge.isFall e then ir.updateEdge e (updSrc e (.block nb))
-                  else ir) ir2
-                (ir', !ft.isEmpty)
-            let ir'' := if addFall then
-                { ir' with cfg := cfgAdd ir'.cfg { src := .block bId, dst := .block nb, label := fallLabel } }
-              else ir'
-            let ir''' := match alookup bId ir''.fbb with
-              | some f => ir''.addFunctionBlock nb f
-              | none => ir''
-            (ir''', addFall)
-          else (ir2, false)
-        -- offset-keyed tables (block keys)
-        let omaps := ir3.aux.omaps.map (fun (name, entries) =>
-          (name, entries.map (fun (el, k, v) =>
-            if el == Elem.block bId && decide (k ≥ offset) then (Elem.block nb, k - offset, v)
-            else (el, k, v))))
-        -- CFI directives
-        let mine := cfiGet ir3.aux.cfi bId
-        let cfi :=
-          if mine.isEmpty then ir3.aux.cfi
-          else
-            let rest := cfiDelBlock ir3.aux.cfi bId
-            let low := mine.filter (fun (k, _) => k < offset)
-            let high := mine.filter (fun (k, _) => k > offset)
-            let atOff := (alookup offset mine).getD []
-            let (keep, move) := splitAtEndproc atOff
-            let lowE := low.map (fun (k, v) => (bId, k, v))
-            let keepE := if keep.isEmpty then [] else [(bId, offset, keep)]
-            -- `cfi_data[new_block][0] = move` overwrites; there is no key 0 among `high - offset`
-            let moveE := if move.isEmpty then [] else [(nb, 0, move)]
-            let highE := high.map (fun (k, v) => (nb, k - offset, v))
-            rest ++ lowE ++ keepE ++ highE ++ moveE
-        let ir4 : IR := { ir3 with aux := { ir3.aux with omaps := omaps, cfi := cfi } }
-        .ok (ir4.orderInsertAfter sect bId [nb], nb, added)
+        let ir2 := (ir.splitBlocks blk nb offset).splitSyms bId nb
+        let r : IR × Bool := if blk.isCode then ir2.splitCode bId nb (offset == blk.size) else (ir2, false)
+        .ok (((r.1.splitTables bId nb offset).orderInsertAfter sect bId [nb]), nb, r.2)
 
 /-! ### are_joinable / join_blocks -/
 
@@ -227,25 +250,35 @@ inductive NoJoin
   | types | interval | module | notAdjacent | alignment | symbols | outEdges | inEdges | function | entry
   deriving Repr, DecidableEq, Inhabited
 
-/-- `are_joinable(cache, block1, block2)`: `none` = joinable -/
-def IR.notJoinable (ir : IR) (b1 b2 : Block) : Option NoJoin :=
+/-- the layout part of `are_joinable`: same kind, same interval, adjacent -/
+def layoutJoinable (b1 b2 : Block) : Option NoJoin :=
   if b1.isCode != b2.isCode then some .types
   else if b1.bi != b2.bi then some .interval
   else if b1.bi.isNone then some .module
   else if b1.off + b1.size != b2.off then some .notAdjacent
-  else if b1.size == 0 then none
-  else if (alookup b2.id ir.aux.alignment).getD 1 != 1 then some .alignment
-  else if (ir.refsTo b2.id).any (fun s => !s.atEnd) then some .symbols
-  else if b1.isCode then
-    let anyOut := (ir.outEdges b1.id).any (fun e => !(Edge.isFall e) || e.dst != .block b2.id)
-    if anyOut && b2.size != 0 then some .outEdges
-    else
-      let anyIn := (ir.inEdges b2.id).any (fun e => !(Edge.isFall e) || e.src != .block b1.id)
-      if anyIn then some .inEdges
-      else if !ir.sameFunction b1.id b2.id then some .function
-      else if ir.isEntryBlock b2.id then some .entry
-      else none
   else none
+
+/-- the control-flow and function part of `are_joinable` (code blocks) -/
+def IR.codeJoinable (ir : IR) (b1 b2 : Block) : Option NoJoin :=
+  let anyOut := (ir.outEdges b1.id).any (fun e => !(Edge.isFall e) || e.dst != .block b2.id)
+  if anyOut && b2.size != 0 then some .outEdges
+  else
+    let anyIn := (ir.inEdges b2.id).any (fun e => !(Edge.isFall e) || e.src != .block b1.id)
+    if anyIn then some .inEdges
+    else if !ir.sameFunction b1.id b2.id then some .function
+    else if ir.isEntryBlock b2.id then some .entry
+    else none
+
+/-- `are_joinable(cache, block1, block2)`: `none` = joinable -/
+def IR.notJoinable (ir : IR) (b1 b2 : Block) : Option NoJoin :=
+  match layoutJoinable b1 b2 with
+  | some r => some r
+  | none =>
+    if b1.size == 0 then none
+    else if (alookup b2.id ir.aux.alignment).getD 1 != 1 then some .alignment
+    else if (ir.refsTo b2.id).any (fun s => !s.atEnd) then some .symbols
+    else if b1.isCode then ir.codeJoinable b1 b2
+    else none
 
 /-- merge `extra` into the directive list at `(b, k)` (setdefault(...).extend) -/
 def cfiExtend (cfi : List (Nat × Nat × List CfiDir)) (b k : Nat) (extra : List CfiDir) :
@@ -255,6 +288,49 @@ def cfiExtend (cfi : List (Nat × Nat × List CfiDir)) (b k : Nat) (extra : List
   else cfi ++ [(b, k, extra)]
 
 /-- `join_blocks(cache, block1, block2)` -/
+def IR.joinSyms (ir : IR) (b1 : Block) (id2 : Nat) : IR :=
+  -- non-empty block1: retarget_references(block2, block1, True);
+  -- empty block1: every reference keeps its at_end flag
+  { ir with syms := ir.syms.map (fun s =>
+      if s.ref == .block id2 then
+        { s with ref := .block b1.id, atEnd := if b1.size != 0 then true else s.atEnd }
+      else s) }
+
+/-- CFG of two joined code blocks -/
+def IR.joinCode (ir : IR) (b1 : Block) (id2 : Nat) : IR :=
+  let i1 := (ir.inEdges id2).foldl (fun ir e =>
+    if Edge.isFall e && e.src == .block b1.id then { ir with cfg := cfgDiscard ir.cfg e } else ir) ir
+  let i2 := if b1.size == 0 then
+      (i1.inEdges id2).foldl (fun ir e => ir.updateEdge e (updDst e (.block b1.id))) i1
+    else (i1.inEdges id2).foldl (fun ir e => { ir with cfg := cfgDiscard ir.cfg e }) i1
+  let i3 := (i2.outEdges id2).foldl (fun ir e => ir.updateEdge e (updSrc e (.block b1.id))) i2
+  i3.removeFunctionBlock id2
+
+def joinOmaps (omaps : List (String × List (Elem × Nat × String))) (id1 size1 id2 : Nat) :
+    List (String × List (Elem × Nat × String)) :=
+  omaps.map (fun (name, entries) =>
+    (name,
+      let mine := entries.filter (fun (el, _, _) => el == Elem.block id2)
+      let rest := entries.filter (fun (el, _, _) => el != Elem.block id2)
+      -- dict.update: later keys overwrite
+      mine.foldl (fun acc (_, k, v) =>
+        (acc.filter (fun (el', k', _) => !(el' == Elem.block id1 && k' == size1 + k)))
+          ++ [(Elem.block id1, size1 + k, v)]) rest))
+
+def joinCfi (cfi : List (Nat × Nat × List CfiDir)) (id1 size1 id2 : Nat) : List (Nat × Nat × List CfiDir) :=
+  (cfiGet cfi id2).foldl (fun acc (k, v) => cfiExtend acc id1 (size1 + k) v) (cfiDelBlock cfi id2)
+
+def joinAlignment (al : List (Nat × Nat)) (id1 id2 : Nat) : List (Nat × Nat) :=
+  let a1 := (alookup id1 al).getD 1
+  let a2 := (alookup id2 al).getD 1
+  let al0 := adel id2 al
+  if a2 > a1 then aset id1 a2 al0 else al0
+
+def IR.joinTables (ir : IR) (b1 : Block) (id2 : Nat) : IR :=
+  { ir with aux := { ir.aux with omaps := joinOmaps ir.aux.omaps b1.id b1.size id2,
+                                 cfi := joinCfi ir.aux.cfi b1.id b1.size id2,
+                                 alignment := joinAlignment ir.aux.alignment b1.id id2 } }
+
 def IR.joinBlocks (ir : IR) (id1 id2 : Nat) : Except Err IR :=
   match ir.block? id1, ir.block? id2 with
   | some b1, some b2 =>
@@ -264,37 +340,9 @@ def IR.joinBlocks (ir : IR) (id1 id2 : Nat) : Except Err IR :=
       match ir.sectionOf b2 with
       | none => .error (.assertion "block2.section")
       | some sect =>
-        -- non-empty block1: retarget_references(block2, block1, True);
-        -- empty block1: every reference keeps its at_end flag
-        let ir1 : IR := { ir with syms := ir.syms.map (fun s =>
-          if s.ref == .block id2 then
-            { s with ref := .block id1, atEnd := if b1.size != 0 then true else s.atEnd }
-          else s) }
-        let ir2 : IR :=
-          if b2.isCode then
-            let i1 := (ir1.inEdges id2).foldl (fun ir e =>
-              if Edge.isFall e && e.src == .block id1 then { ir with cfg := cfgDiscard ir.cfg e } else ir) ir1
-            let i2 := if b1.size == 0 then
-                (i1.inEdges id2).foldl (fun ir e => ir.updateEdge e (updDst e (.block id1))) i1
-              else (i1.inEdges id2).foldl (fun ir e => { ir with cfg := cfgDiscard ir.cfg e }) i1
-            let i3 := (i2.outEdges id2).foldl (fun ir e => ir.updateEdge e (updSrc e (.block id1))) i2
-            i3.removeFunctionBlock id2
-          else ir1
-        let omaps := ir2.aux.omaps.map (fun (name, entries) =>
-          (name,
-            let mine := entries.filter (fun (el, _, _) => el == Elem.block id2)
-            let rest := entries.filter (fun (el, _, _) => el != Elem.block id2)
-            -- dict.update: later keys overwrite
-            mine.foldl (fun acc (_, k, v) =>
-              (acc.filter (fun (el', k', _) => !(el' == Elem.block id1 && k' == b1.size + k)))
-                ++ [(Elem.block id1, b1.size + k, v)]) rest))
-        let mine := cfiGet ir2.aux.cfi id2
-        let cfi := mine.foldl (fun acc (k, v) => cfiExtend acc id1 (b1.size + k) v) (cfiDelBlock ir2.aux.cfi id2)
-        let a1 := (alookup id1 ir2.aux.alignment).getD 1
-        let a2 := (alookup id2 ir2.aux.alignment).getD 1
-        let al0 := adel id2 ir2.aux.alignment
-        let al := if a2 > a1 then aset id1 a2 al0 else al0
-        let ir3 : IR := { ir2 with aux := { ir2.aux with omaps := omaps, cfi := cfi, alignment := al } }
+        let ir1 := ir.joinSyms b1 id2
+        let ir2 := if b2.isCode then ir1.joinCode b1 id2 else ir1
+        let ir3 := ir2.joinTables b1 id2
         let ir4 := ir3.setBlock { b1 with size := b1.size + b2.size }
         let ir5 := ir4.orderRemove sect id2
         .ok (ir5.setBlock { b2 with bi := none })
